@@ -418,6 +418,14 @@ func TestC08_CloseAndPingStateMachine(t *testing.T) {
 			var gotFrame *rfc6455.Frame
 			var gotMsg *wsMessage
 			frameAPI := api == "NextFrame" || api == "AsyncNextFrame"
+			// every read first flushes what earlier reads queued (pongs, a close reply): a peer whose application only
+			// reads still gets its answers
+			queuedBefore := 0
+			for _, e := range m.out {
+				if !e.optional {
+					queuedBefore++
+				}
+			}
 			if frameAPI {
 				exp = m.readFrame()
 			} else {
@@ -455,6 +463,12 @@ func TestC08_CloseAndPingStateMachine(t *testing.T) {
 				deliverUntil(&done, api)
 			}
 			trace = append(trace, fmt.Sprintf("%s=%v", api, gotErr))
+			if !exp.terminal && pendingCloseDone == nil {
+				ms.DeliverAll(1000)
+				if fs, _ := rfc6455.ParseAll(ms.Out); len(fs) < queuedBefore {
+					t.Fatalf("%s returned and only %d frames are on the wire, although %d replies (pongs / close) had been queued by earlier reads: a read flushes the pending control frames first; trace=%v", api, len(fs), queuedBefore, trace)
+				}
+			}
 			switch {
 			case exp.terminal:
 				if gotErr == nil {
